@@ -39,6 +39,8 @@ class Unit:
     skip = {}
     rename = {}
     header = ""
+    ghost_params = {}           # rust fn name -> [(name, rust type)]: extra (ghost) parameters of the generated function
+    self_calls_only = False     # dependency order: count `x.f(..)` as a call of the unit's `f` only if `x` is the state
 
     def __init__(self):
         self.fns = {}
